@@ -50,18 +50,15 @@ Ltac xnorej :=
   try reflexivity; try discriminate.
 
 (* ------------------------------------------------------------ C07 *)
-Definition is_flameswip_use (c : xcomp) (m : xmeth) : bool :=
-  match c, m with FlameSwipVI, XUse => true | _, _ => false end.
-
-(* every modelled reducer except FlameSwipVI.use: a rejection is alone and the state is untouched *)
+(* every modelled reducer (FlameSwipVI.use included, after the repair 385777f): a rejection is alone
+   and the state is untouched *)
 Lemma xreject_alone pe fuel c m p t s s' es :
-  is_flameswip_use c m = false ->
   xreduce pe fuel c m p t s = Some (s', es) -> xrejected es = true -> es = [XE EReject] /\ s' = s.
 Proof.
-  intros Hc H R.
-  destruct c, m; cbn [xreduce is_flameswip_use] in H, Hc; try discriminate;
+  intros H R.
+  destruct c, m; cbn [xreduce] in H; try discriminate;
     unfold cd_elapse, lift, har_stack, tc_attack, use_buff_trait, elapse_buff_trait, elapse_simple_attack,
-      use_periodic_with_simple, use_periodic, elapse_periodic_with, cf_elapse in H;
+      use_periodic_with_simple, use_periodic, elapse_periodic_with, cf_elapse, use_simple_attack in H;
     cbn [fst snd] in H;
     repeat match type of H with
       | context [if ?b then _ else _] => destruct b eqn:?
@@ -83,7 +80,6 @@ Proof.
 Qed.
 
 Lemma xreject_alone_spec c m p t s s' es :
-  is_flameswip_use c m = false ->
   xreduce_spec c m p t s = Some (s', es) -> xrejected es = true -> es = [XE EReject] /\ s' = s.
 Proof. apply xreject_alone. Qed.
 
@@ -93,8 +89,7 @@ Lemma xonly_use_rejects pe fuel c m p t s s' es :
   m <> XUse -> xreduce pe fuel c m p t s = Some (s', es) -> xrejected es = false.
 Proof.
   intros Hm H. destruct (xrejected es) eqn:R; [|reflexivity]. exfalso.
-  assert (F : is_flameswip_use c m = false) by (destruct c, m; try reflexivity; congruence).
-  destruct (xreject_alone pe fuel c m p t s s' es F H R) as [-> ->].
+  destruct (xreject_alone pe fuel c m p t s s' es H R) as [-> ->].
   destruct c, m; try congruence; cbn [xreduce] in H; try discriminate;
     unfold cd_elapse, lift, har_stack, elapse_buff_trait, elapse_simple_attack, elapse_periodic_with, cf_elapse in H;
     cbn [fst snd map] in H;
@@ -107,25 +102,14 @@ Proof.
 Qed.
 
 (* Using a skill that is cooling down is a no-op reported as one rejection (every class with a
-   `use`, except FlameSwipVI) *)
+   `use`) *)
 Definition has_use (c : xcomp) : bool := match c with FerventDrain | FrostEffect => false | _ => true end.
 Lemma xnot_ready_noop c p t s :
-  has_use c = true -> c <> FlameSwipVI -> 0 < u_cd (x_u s) -> xreduce_spec c XUse p t s = Some (s, [XE EReject]).
+  has_use c = true -> 0 < u_cd (x_u s) -> xreduce_spec c XUse p t s = Some (s, [XE EReject]).
 Proof.
-  intros Hu Hf Hcd. assert (A : avail (x_u s) = false) by (unfold avail; apply Z.leb_gt; lia).
+  intros Hu Hcd. assert (A : avail (x_u s) = false) by (unfold avail; apply Z.leb_gt; lia).
   destruct c; try discriminate; try congruence; cbn;
-    unfold lift, use_buff_trait, use_periodic_with_simple, use_periodic; rewrite ?A; cbn; rewrite ?xset_u_id; reflexivity.
-Qed.
-
-(* FlameSwipVI.use as shipped: `event += [dot]; state.stack.increase(1)` run whether or not the
-   trait rejected.  Largest true sub-statement, and the witness. *)
-Lemma flameswip_reject_partial p t s s' es :
-  xreduce_spec FlameSwipVI XUse p t s = Some (s', es) -> xrejected es = true ->
-  es = [XE EReject; mobdot (xp p)] /\ xset_stk s' (x_stk s) = s.
-Proof.
-  cbn. unfold use_simple_attack. intros H R.
-  destruct (negb (avail (x_u s))); injection H as <- <-; [|exfalso; revert R; cbn; discriminate].
-  split; [reflexivity|]. destruct s; reflexivity.
+    unfold lift, use_buff_trait, use_periodic_with_simple, use_periodic, use_simple_attack; rewrite ?A; cbn; rewrite ?xset_u_id; reflexivity.
 Qed.
 
 Definition x0 : xst :=
@@ -136,14 +120,11 @@ Definition xp0 : xpar :=
   mkXP (mkPar false (7, 1) 600 1000 0 20000 20000 2%nat [] (8, 1) (0, 0) (0, 0) (9, 1) 0 (10, 1) 0 0 3 0 (11, 10000))
        5 true [20; 21; 22; 23; 24; 25; 26] 2 4000 2 8 5000 70 3 115.
 
-Lemma flameswip_reject_refuted :
-  exists p s s' es, xreduce_spec FlameSwipVI XUse p 0 s = Some (s', es) /\ xrejected es = true /\
-                    es <> [XE EReject] /\ s' <> s.
-Proof.
-  exists xp0, x0_cooling. eexists. eexists. split; [vm_compute; reflexivity|].
-  split; [reflexivity|]. split; [discriminate|].
-  intros H. apply (f_equal (fun x => sk (x_stk x))) in H. vm_compute in H. discriminate.
-Qed.
+(* FlameSwipVI.use before the repair 385777f appended the DOT event and bumped the stack on a
+   rejected use; the repaired reducer returns the rejection alone (regression example on the old witness) *)
+Example flameswip_reject_repaired :
+  xreduce_spec FlameSwipVI XUse xp0 0 x0_cooling = Some (x0_cooling, [XE EReject]).
+Proof. reflexivity. Qed.
 
 (* non-vacuity: an ordinary class rejects on the same state *)
 Example xreject_happens :
